@@ -23,6 +23,11 @@ LOGICAL_UNIONS = [
     ([{"type": "bytes", "logicalType": "decimal", "precision": 6, "scale": 2}, "string", "null"], [decimal.Decimal("12.34"), "x", None]),
     (["null", {"type": "fixed", "name": "Dec8", "size": 8, "logicalType": "decimal", "precision": 10, "scale": 3}, "double"], [None, decimal.Decimal("-1.500"), 2.5]),
     ([{"type": "long", "logicalType": "time-micros"}, {"type": "int", "logicalType": "date"}], [dt.time(1, 2, 3, 4), dt.date(1970, 1, 1)]),
+    # two decimal branches of different capacity: a value goes to the first one that can hold it
+    ([{"type": "bytes", "logicalType": "decimal", "precision": 3, "scale": 1}, {"type": "fixed", "name": "Dec9", "size": 8, "logicalType": "decimal", "precision": 9, "scale": 1}],
+     [decimal.Decimal("1.5"), decimal.Decimal("12345.5"), decimal.Decimal("-99.9"), decimal.Decimal("10")]),
+    ([{"type": "fixed", "name": "Dec4", "size": 2, "logicalType": "decimal", "precision": 4, "scale": 0}, "null", {"type": "bytes", "logicalType": "decimal", "precision": 12, "scale": 2}],
+     [decimal.Decimal("123"), decimal.Decimal("1.25"), decimal.Decimal("1234567"), None, decimal.Decimal("-9999")]),
     ({"type": "record", "name": "L", "fields": [{"name": "when", "type": ["null", {"type": "long", "logicalType": "timestamp-millis"}], "default": None},
                                                 {"name": "id", "type": [{"type": "string", "logicalType": "uuid"}, "null"]}]},
      [{"when": dt.datetime(2001, 1, 1, tzinfo=UTC), "id": uuid.UUID(int=1)}, {"id": None}, {"when": None, "id": uuid.UUID(int=2**127)}]),
@@ -84,9 +89,9 @@ class C09(Check):
     assumptions = [
         "when a record branch and a non-record branch both conform the statement ranks neither: any conforming branch is accepted",
         "closure is asserted for data whose hints are on named branches only",
-        "shape under return_record_name* is not asserted for unions holding by-name references (documented approximation)",
+        "shape under return_record_name* is not asserted for unions holding by-name references to enum or fixed types (documented approximation: such a reference is counted as a record)",
     ]
-    required_labels = ["multi-conforming", "hint:tuple", "hint:-type", "hint:wrong", "float-deferral", "record-tie", "closure", "shape:named", "shape:named-override-single", "logical-family", "no-tuple-notation"]
+    required_labels = ["multi-conforming", "hint:tuple", "hint:-type", "hint:wrong", "float-deferral", "record-tie", "closure", "shape:named", "shape:named-override-single", "shape:record-by-name", "shape:record-override-single", "logical-family", "no-tuple-notation"]
     quick = (4000, 1)
     thorough = (10000, 16)
 
@@ -310,10 +315,14 @@ class C09(Check):
                     return (name, inner)
                 return inner
             if opts.get("return_record_name") or opts.get("return_record_name_override"):
-                if refs:
-                    flags.add("approx")  # by-name references are counted as records by design: not asserted
+                if any(M.deref(x, table)["k"] != "record" for x in refs):
+                    # a by-name reference to an enum or fixed is counted as a record by design: not asserted
+                    flags.add("approx")
                     return inner
-                if opts.get("return_record_name_override") and len(inline_recs) == 1:
+                if refs:
+                    flags.add("shape:record-by-name")
+                if opts.get("return_record_name_override") and len(inline_recs) + len(refs) == 1:
+                    flags.add("shape:record-override-single")
                     return inner
                 if opts.get("return_record_name") and bk == "record":
                     flags.add("shape:record")
